@@ -24,6 +24,52 @@ func staticCallee(c ssa.CallInstruction) *ssa.Function {
 			return f
 		}
 	}
+	// local variable holding a closure: load of a cell with exactly one store, of a closure/function
+	if ld, ok := cc.Value.(*ssa.UnOp); ok && ld.Op == token.MUL {
+		cell := cellRoot(ld.X)
+		if al, ok := cell.(*ssa.Alloc); ok {
+			if f := singleStoredFunc(al); f != nil {
+				return f
+			}
+		}
+	}
+	return nil
+}
+
+// singleStoredFunc: the only value ever stored into local cell al is a function/closure.
+func singleStoredFunc(al *ssa.Alloc) *ssa.Function {
+	var found *ssa.Function
+	n := 0
+	var scan func(fn *ssa.Function, cell ssa.Value)
+	scan = func(fn *ssa.Function, cell ssa.Value) {
+		eachInstr(fn, func(_ *ssa.BasicBlock, _ int, i ssa.Instruction) {
+			switch x := i.(type) {
+			case *ssa.Store:
+				if x.Addr == cell {
+					n++
+					switch v := x.Val.(type) {
+					case *ssa.MakeClosure:
+						found, _ = v.Fn.(*ssa.Function)
+					case *ssa.Function:
+						found = v
+					default:
+						n += 100
+					}
+				}
+			case *ssa.MakeClosure:
+				for bi, b := range x.Bindings {
+					if b == cell {
+						cf := x.Fn.(*ssa.Function)
+						scan(cf, cf.FreeVars[bi])
+					}
+				}
+			}
+		})
+	}
+	scan(al.Parent(), al)
+	if n == 1 {
+		return found
+	}
 	return nil
 }
 
@@ -50,7 +96,10 @@ func calleeObject(c ssa.CallInstruction) types.Object {
 		}
 		return nil
 	}
-	return fieldOfValue(cc.Value)
+	if f := fieldOfValue(cc.Value); f != nil {
+		return f
+	}
+	return nil
 }
 
 // fieldOfValue: if v is a load of x.f (or Field extraction), return field f.
@@ -98,11 +147,17 @@ func objRef(o types.Object) string {
 		}
 	case *types.Var:
 		if x.IsField() {
+			if own, ok := fieldOwners[x]; ok {
+				return pp + "." + own + "." + x.Name()
+			}
 			return pp + ".<field>." + x.Name()
 		}
 	}
 	return pp + "." + o.Name()
 }
+
+// fieldOwners maps struct fields of named module struct types to the type name (filled by Load).
+var fieldOwners = map[*types.Var]string{}
 
 func recvTypeName(t types.Type) string {
 	t = types.Unalias(t)
@@ -125,6 +180,9 @@ func callRef(i ssa.Instruction) (ssa.CallInstruction, string) {
 	if o == nil {
 		if b, ok := c.Common().Value.(*ssa.Builtin); ok {
 			return c, "builtin." + b.Name()
+		}
+		if f := staticCallee(c); f != nil {
+			return c, FuncID(f) // closure
 		}
 		return c, ""
 	}
@@ -386,12 +444,15 @@ type FactFlow struct {
 	kill func(ssa.Instruction) []string
 }
 
-func NewFactFlow(fn *ssa.Function, genI func(ssa.Instruction) []string, genE map[Edge][]string, kill func(ssa.Instruction) []string) *FactFlow {
+func NewFactFlow(fn *ssa.Function, genI func(ssa.Instruction) []string, genE map[Edge][]string, kill func(ssa.Instruction) []string, init []string) *FactFlow {
 	ff := &FactFlow{fn: fn, in: map[*ssa.BasicBlock]map[string]bool{}, genI: genI, genE: genE, kill: kill}
 	if len(fn.Blocks) == 0 {
 		return ff
 	}
 	ff.in[fn.Blocks[0]] = map[string]bool{}
+	for _, f := range init {
+		ff.in[fn.Blocks[0]][f] = true
+	}
 	// recover block (if any) has no preds: treat as entry with empty facts
 	if fn.Recover != nil {
 		ff.in[fn.Recover] = map[string]bool{}
@@ -537,8 +598,8 @@ func instrsAfter(i ssa.Instruction) []ssa.Instruction {
 func returnsOf(fn *ssa.Function) []*ssa.Return {
 	var out []*ssa.Return
 	for _, b := range fn.Blocks {
-		if len(b.Instrs) == 0 {
-			continue
+		if len(b.Instrs) == 0 || b == fn.Recover {
+			continue // the recover block is a panic exit, not a normal return
 		}
 		if r, ok := b.Instrs[len(b.Instrs)-1].(*ssa.Return); ok {
 			out = append(out, r)
